@@ -639,7 +639,16 @@ func (ie IndexExpression) PrettyPrint(out *PrintState) *PrintState {
 	}
 	out.Print(ie.Literal())
 	out.ExpressionPrecedence = LOWEST
+	// After a dot the parser reads one name (a.b, a."b", also a.b++); any other expression is only read there in
+	// parentheses and keeps them: a.(b + c) is not a.b + c, a.(f(1)) is not a.f(1), a.(1) is not a .1
+	dotExpression := ie.Token.Type() == token.DOT && !isDotName(ie.Index)
+	if dotExpression {
+		out.Print("(")
+	}
 	ie.Index.PrettyPrint(out)
+	if dotExpression {
+		out.Print(")")
+	}
 	if ie.Token.Type() == token.LBRACKET {
 		out.Print("]")
 	}
@@ -648,6 +657,16 @@ func (ie IndexExpression) PrettyPrint(out *PrintState) *PrintState {
 	}
 	out.ExpressionPrecedence = oldExpressionPrecedence
 	return out
+}
+
+// isDotName tells whether n is what the parser reads after a dot without parentheses.
+func isDotName(n Node) bool {
+	switch n.(type) {
+	case *Identifier, *StringLiteral, *PostfixExpression:
+		return true
+	default:
+		return false
+	}
 }
 
 type MapLiteral struct {
